@@ -91,6 +91,10 @@ type Case struct {
 	// QueryEvery: replica B is also queried between blocks (after every commit and after
 	// every restart); otherwise only right after restarts and at the end.
 	QueryEvery bool `json:"query_every"`
+	// Repeat > 1: the block sequence is the list Blocks taken Repeat times (fresh nonces each
+	// time); SkipC: no third replica (schedule leg: many blocks, two replicas).
+	Repeat int  `json:"repeat,omitempty"`
+	SkipC  bool `json:"skip_c,omitempty"`
 }
 
 // ---------------------------------------------------------------------------------------
@@ -492,15 +496,26 @@ func (m *model) apply(bt *builtTx) {
 // expand turns the abstract blocks into raw transactions (pure function of the case).
 func expand(c Case) ([][]builtTx, *model) {
 	m := &model{}
-	out := make([][]builtTx, len(c.Blocks))
-	for i, blk := range c.Blocks {
-		if len(blk) > 12 {
-			blk = blk[:12]
-		}
-		for _, s := range blk {
-			bt := m.build(s)
-			m.apply(&bt)
-			out[i] = append(out[i], bt)
+	rep := c.Repeat
+	if rep < 1 {
+		rep = 1
+	}
+	if rep > 400 {
+		rep = 400
+	}
+	out := make([][]builtTx, 0, len(c.Blocks)*rep)
+	for r := 0; r < rep; r++ {
+		for _, blk := range c.Blocks {
+			if len(blk) > 12 {
+				blk = blk[:12]
+			}
+			built := []builtTx{}
+			for _, s := range blk {
+				bt := m.build(s)
+				m.apply(&bt)
+				built = append(built, bt)
+			}
+			out = append(out, built)
 		}
 	}
 	return out, m
